@@ -12,6 +12,8 @@ Tie / oracle (all on the REAL classes, under `tfl.premade.get_custom_objects()`)
   outputs_equal  rebuilt layer / model + `set_weights(get_weights())` computes identical outputs;
                  rebuilt constraints / regularizers / deterministic initializers act identically;
                  RTL / random-ensemble structures are identical after a rebuild from the config
+                 a `LatticeConstraints` given ONE bare constraint tuple (fix ebf18ed) has the config and the projections
+                 of its one-element-list spelling, before and after the round trip (stream `single_tuple`)
   save_load      `model.save` / `load_model` (h5, .keras, SavedModel) after k in {0,1,5} hostile
                  training steps preserves outputs and weights (hence constraint satisfaction)
 Correspondence with the Lean side:
@@ -31,7 +33,10 @@ import translate_accept as TA   # noqa: E402
 RULE = ("one or more constructions of EVERY public class with get_config (39 classes) such that every "
         "optional constructor argument is non-default at least once (trusts as a single tuple, per-dimension "
         "regularizer amounts, missing output values, string / int / tuple spellings, float64); each object goes "
-        "through direct, Keras-serializer and JSON round trips. Non-trivial = a construction with at least one "
+        "through direct, Keras-serializer and JSON round trips. LatticeConstraints is also built with ONE bare tuple for "
+        "each of its five trust / dominance / joint-monotonicity arguments and for joint_unimodalities (random dimensions and "
+        "direction spellings; empty tuples too) and compared with the one-element-list spelling: equal configs before and "
+        "after the round trip, identical projections of 4 random kernels. Non-trivial = a construction with at least one "
         "non-default optional argument; distinct = (class, case label, route). Models: premade models and a "
         "functional model of the layers, saved in three formats after 0, 1 and 5 hostile training steps.")
 ASSUMPTIONS = [
@@ -146,6 +151,23 @@ def cases(rng):
       range_dominances=[(1, 2)], joint_unimodalities=[([0], "valley")])
   add("lattice_layer", "LatticeConstraints", "trusts_only", lattice_sizes=(2, 3), monotonicities=("increasing", "none"),
       edgeworth_trusts=[(0, 1, "positive")], trapezoid_trusts=[[0, 1, 1]], output_max=1.0)
+  # fix ebf18ed: ONE constraint given as a bare tuple (each of the five families, and a joint unimodality), random
+  # dimensions / direction spellings; `single_twin()` is the one-element-list spelling of the same object
+  a, b = rng.choice([(0, 2), (2, 0)])
+  # (both trusts of a pair must point the same way: opposite directions are rejected by verify_hyperparameters)
+  spell = rng.choice([["positive", 1, "Positive"], ["negative", -1, "Negative"]])
+  add("lattice_layer", "LatticeConstraints", "single_trusts_dom", lattice_sizes=[2, 3, 2], monotonicities=["increasing", 0, 1],
+      edgeworth_trusts=(a, b, rng.choice(spell)), trapezoid_trusts=(a, b, rng.choice(spell)), monotonic_dominances=(a, b),
+      output_min=0.0, output_max=1.0)
+  a, b = rng.choice([(1, 2), (2, 1)])
+  add("lattice_layer", "LatticeConstraints", "single_range_jm", lattice_sizes=[3, 2, 2], monotonicities=[0, 1, 1],
+      range_dominances=(a, b), joint_monotonicities=rng.choice([(0, 1), (0, 2), (1, 0)]))
+  add("lattice_layer", "LatticeConstraints", "single_ju", lattice_sizes=[3, 3, 2], monotonicities=[0, 0, 1],
+      joint_unimodalities=(rng.choice([[0, 1], [0], [1], (1, 0)]), rng.choice(["peak", "valley"])),
+      joint_monotonicities=rng.choice([(0, 2), (2, 1)]))
+  # the `and constraints` guard of `as_list`: an empty tuple is left alone (no IndexError)
+  add("lattice_layer", "LatticeConstraints", "empty_tuples", lattice_sizes=(2, 3), monotonicities=(1, 0),
+      edgeworth_trusts=(), trapezoid_trusts=(), monotonic_dominances=(), range_dominances=(), joint_monotonicities=())
   add("lattice_layer", "TorsionRegularizer", "perdim", lattice_sizes=[2, 3], l1=[0.1, 0.2], l2=0.3)
   add("lattice_layer", "TorsionRegularizer", "tuple", lattice_sizes=(2, 3), l1=0.5, l2=(0.1, 0.2))
   add("lattice_layer", "LaplacianRegularizer", "perdim", lattice_sizes=[2, 3], l1=[0.1, 0.2], l2=0.3)
@@ -485,10 +507,110 @@ def oracle_fail(ctx, cls, clause, case, observed, detail="", arg=None):
     ctx.fail(clause, key, case, observed, detail)
 
 
+# the normaliser labels of the table that have a Lean model -> the driver's name (`cfg.norm`)
+_AS_LIST = ("def as_list(constraints): if isinstance(constraints, tuple) and constraints and isinstance(constraints[0], int): "
+            "return [constraints] return constraints; _ = as_list(_); ")
+NORM = {"@ = utils.canonicalize_monotonicities(_, allow_decreasing=False)": "canonicalize_monotonicities_nodecr",
+        "@ = utils.canonicalize_monotonicity(_)": "canonicalize_monotonicity",
+        "@ = utils.canonicalize_trust(_)": "canonicalize_trust",
+        "@ = utils.canonicalize_unimodalities(_)": "canonicalize_unimodalities",
+        "if isinstance(_, tuple) and isinstance(_[0], int): @ = [_] else: @ = _": "wrap_single",
+        "if isinstance(_, list) or isinstance(_, tuple): @ = list(_) elif _ is not None: @ = [_] * self.num_input_dims else: @ = [0] * self.num_input_dims": "linear_monotonicities",
+        "if _ is None: @ = float(num_keypoints) else: @ = float(_)": "float_or_num_keypoints",
+        "as_tuples = lambda ps: [tuple(p) for p in ps] if ps else ps; @ = as_tuples(_)": "as_tuples",
+        # LatticeConstraints since fix ebf18ed (the second label as the translator cuts it: 228 characters + hash)
+        _AS_LIST + "@ = utils.canonicalize_trust(_)": "wrap_canonicalize_trust",
+        TC._label_text(_AS_LIST + "as_tuples = lambda ps: [tuple(p) for p in ps] if ps else ps; @ = as_tuples(_)"): "wrap_as_tuples"}
+
+
+def norm_lines(case, row, args, cfg, dflt, lines, pend):
+  """queues `cfg.norm` driver lines: the value the real constructor stored for every key whose normaliser has a
+  Lean model vs `Tfl.Configs.valNorm` on the raw argument"""
+  for k in row["keys"]:
+    if k["reader"] == "attr" and k["norm"] in NORM and k["key"] in cfg:
+      raw = args.get(k["param"], dflt.get(k["param"]))
+      try:
+        line = "cfg.norm %s %s %s %s" % (NORM[k["norm"]], TA.wire_val(args.get("num_input_dims")),
+                                         TA.wire_val(args.get("num_keypoints")), TA.wire_val(raw))
+        want = TA.wire_val(_plain(cfg[k["key"]]))
+      except TypeError:
+        continue
+      lines.append(line)
+      pend.append((case, k["key"], NORM[k["norm"]], want))
+
+
+SINGLE_ARGS = ("edgeworth_trusts", "trapezoid_trusts", "monotonic_dominances", "range_dominances", "joint_monotonicities",
+               "joint_unimodalities")
+
+
+def single_twin(kw):
+  """the one-element-list spelling of every constraint given as ONE bare tuple"""
+  out = dict(kw)
+  for a in SINGLE_ARGS:
+    v = kw.get(a)
+    if isinstance(v, tuple) and v and (isinstance(v[0], int) or (a == "joint_unimodalities" and len(v) == 2 and isinstance(v[1], str))):
+      out[a] = [v]
+  return out
+
+
+def check_single_tuples(ctx, cls, label, mod, kw, seed, lines, pend):
+  """fix ebf18ed: a constraint given as one bare tuple builds the SAME object as its one-element-list spelling —
+  equal get_config() (also after the round trip of either), identical projections of random kernels"""
+  import tensorflow as tf
+  K, args = materialize(mod, cls, kw)
+  twin = single_twin(args)
+  wrapped = [a for a in SINGLE_ARGS if twin.get(a) is not args.get(a)]
+  case = dict(stream="single_tuple", cls=cls, label=label, mod=mod, seed=seed, kw=repr(kw))
+  ctx.case(sig=(cls, label, "single_vs_list"), nontrivial=bool(wrapped), sample=dict(cls=cls, label=label, wrapped=wrapped))
+  for a in wrapped:
+    ctx.count("single_tuple:%s.%s" % (cls, a))
+  try:
+    o1, o2 = K(**copy.deepcopy(args)), K(**copy.deepcopy(twin))
+  except Exception as e:  # pylint: disable=broad-except
+    ctx.count("ctor_failed:%s/%s:%s" % (cls, label, type(e).__name__))
+    ctx.disagree("table.constructible", case, "%s: %s" % (type(e).__name__, str(e)[:200]), "constructible")
+    return
+  row = row_of(cls, mod)
+  c1, c2 = o1.get_config(), o2.get_config()
+  norm_lines(dict(case, spelling="list"), row, twin, c2, sig_defaults(K), lines, pend)
+  try:
+    r1, r2 = rebuild(K, c1, row["kind"]), rebuild(K, c2, row["kind"])
+  except Exception as e:  # pylint: disable=broad-except
+    oracle_fail(ctx, cls, "from_config", case, "%s: %s" % (type(e).__name__, (str(e).splitlines() or [""])[0][:240]),
+                "single-tuple / one-element-list spelling", arg="single_tuple_vs_list")
+    return
+  cfgs = [canon(o.get_config()) for o in (o1, o2, r1, r2)]
+  if any(c != cfgs[0] for c in cfgs):
+    diff = sorted(k for c in cfgs for k in set(c) | set(cfgs[0]) if c.get(k) != cfgs[0].get(k))
+    oracle_fail(ctx, cls, "config_equal", case, dict(differing_keys=sorted(set(diff)), single=[cfgs[0].get(k) for k in sorted(set(diff))],
+                                                    others=[[c.get(k) for k in sorted(set(diff))] for c in cfgs[1:]]),
+                "configs of (single tuple, one-element list, rebuilt single, rebuilt list) differ", arg="single_tuple_vs_list")
+  else:
+    ctx.count("single_tuple_config_equal:%s" % cls)
+  n = int(np.prod(args["lattice_sizes"]))
+  ok = True
+  for j in range(4):
+    rs = np.random.RandomState(seed + j)
+    w = tf.constant(rs.uniform(-3, 3, size=(n, 1 + j % 2)) * (10.0 if j == 3 else 1.0))
+    outs = [np.asarray(o(w)) for o in (o1, o2, r1, r2)]
+    if not all(same_arrays([outs[0]], [u]) for u in outs[1:]):
+      ok = False
+      oracle_fail(ctx, cls, "outputs_equal", dict(case, kernel=j), dict(single=outs[0][:3], others=[u[:3] for u in outs[1:]]),
+                  "projections of a random kernel differ between the single-tuple and the one-element-list spelling",
+                  arg="single_tuple_vs_list")
+      break
+    if not np.array_equal(outs[0], np.asarray(w)):
+      ctx.count("single_tuple_projection_moves_kernel")
+  if ok:
+    ctx.count("single_tuple_outputs_equal:%s" % cls)
+
+
 def check_object(ctx, cls, label, mod, kw, seed, lines, pend):
   import tensorflow as tf
   row = row_of(cls, mod)
   case = dict(stream="object", cls=cls, label=label, mod=mod, seed=seed)
+  if cls == "LatticeConstraints":
+    case["kw"] = repr(kw)        # randomised literal arguments (tuples kept): the replay rebuilds exactly this object
   K, args = materialize(mod, cls, kw)
   kind = row["kind"] if row else "?"
   nd = nondefault_args(K, args)
@@ -551,26 +673,7 @@ def check_object(ctx, cls, label, mod, kw, seed, lines, pend):
     if ok_attr:
       ctx.agree("table.attrs")
     # normalisers with a Lean model: what the constructor stored vs Tfl.Configs.valNorm
-    NORM = {"@ = utils.canonicalize_monotonicities(_, allow_decreasing=False)": "canonicalize_monotonicities_nodecr",
-            "@ = utils.canonicalize_monotonicity(_)": "canonicalize_monotonicity",
-            "@ = utils.canonicalize_trust(_)": "canonicalize_trust",
-            "@ = utils.canonicalize_unimodalities(_)": "canonicalize_unimodalities",
-            "if isinstance(_, tuple) and isinstance(_[0], int): @ = [_] else: @ = _": "wrap_single",
-            "if isinstance(_, list) or isinstance(_, tuple): @ = list(_) elif _ is not None: @ = [_] * self.num_input_dims else: @ = [0] * self.num_input_dims": "linear_monotonicities",
-            "if _ is None: @ = float(num_keypoints) else: @ = float(_)": "float_or_num_keypoints",
-            "as_tuples = lambda ps: [tuple(p) for p in ps] if ps else ps; @ = as_tuples(_)": "as_tuples"}
-    dflt = sig_defaults(K)
-    for k in row["keys"]:
-      if k["reader"] == "attr" and k["norm"] in NORM and k["key"] in cfg:
-        raw = args.get(k["param"], dflt.get(k["param"]))
-        try:
-          line = "cfg.norm %s %s %s %s" % (NORM[k["norm"]], TA.wire_val(args.get("num_input_dims")),
-                                           TA.wire_val(args.get("num_keypoints")), TA.wire_val(raw))
-          want = TA.wire_val(_plain(cfg[k["key"]]))
-        except TypeError:
-          continue
-        lines.append(line)
-        pend.append((case, k["key"], NORM[k["norm"]], want))
+    norm_lines(case, row, args, cfg, sig_defaults(K), lines, pend)
   # ---------------- round trips
   ref = None
   try:
@@ -857,6 +960,11 @@ def run(ctx):
   seen_nd = {}
   for cls, label, mod, kw in cases(ctx.rng):
     check_object(ctx, cls, label, mod, kw, ctx.rng.randrange(10 ** 6), lines, pend)
+    if cls == "LatticeConstraints" and label.startswith("single_"):
+      check_single_tuples(ctx, cls, label, mod, kw, ctx.rng.randrange(10 ** 6), lines, pend)
+  for a in SINGLE_ARGS:
+    if "single_tuple:LatticeConstraints.%s" % a not in ctx.dist:
+      ctx.disagree("table.coverage", dict(cls="LatticeConstraints", arg=a), None, None, "never given as a single tuple")
   replies = run_driver(lines)
   for (case, key, which, want), rep in zip(pend, replies):
     c = dict(case, key=key, normaliser=which)
@@ -914,4 +1022,10 @@ def replay(ctx, failure):
   lines, pend = [], []
   for cls, label, mod, kw in cases(ctx.rng):
     if cls == case.get("cls") and label == case.get("label"):
-      check_object(ctx, cls, label, mod, kw, case.get("seed", 0), lines, pend)
+      if case.get("kw"):
+        import ast
+        kw = ast.literal_eval(case["kw"])
+      if case.get("stream") == "single_tuple":
+        check_single_tuples(ctx, cls, label, mod, kw, case.get("seed", 0), lines, pend)
+      else:
+        check_object(ctx, cls, label, mod, kw, case.get("seed", 0), lines, pend)
